@@ -369,7 +369,12 @@ def gen_form_tree(r, depth=0):
                 inner[5][0][5].extend([radio(r.random() < 0.4) for _ in range(r.randint(1, 2))])
                 kids.insert(r.randint(0, len(kids)), radio(r.random() < 0.5))
             # an embedded document, or (as parsers that keep the content as text, or authors, leave it) an empty / text-only iframe
-            kids.append(('e', 'iframe', None, None, [], [inner] if y < 0.65 else [] if y < 0.9 else [('t', r.choice(['x', ' ']))]))
+            # the iframe element itself may carry dir (auto: its direction must not be read off the embedded document's text)
+            if_attrs = [('dir', r.choice(['auto', 'auto', 'AUTO', 'rtl', 'ltr']))] if r.random() < 0.35 else []
+            if if_attrs and y < 0.65 and r.random() < 0.7:
+                inner[5][0][5].insert(0, ('e', 'p', None, None, [], [('t', r.choice([RTL, RTL + 'abc', 'abc']))]))
+            kids.append(('e', 'iframe', None, None, if_attrs,
+                         [inner] if y < 0.65 else [] if y < 0.9 else [('t', r.choice(['x', ' ', RTL]))]))
         elif x < 0.9:
             kids.append(('t', r.choice(BIDI_TEXTS)))
         else:
